@@ -48,7 +48,7 @@ func (c16) Cases(tier string, seed int64, kf *KnownFindings) []Case {
 	cs = append(cs, Case{Kind: "term", Count: len(c16termOnly), Sub: -1})
 	nu := 6
 	if tier == "thorough" {
-		nu = 300
+		nu = 1000
 	}
 	for i, e := range zoo.Types {
 		cs = append(cs, Case{Kind: "extract", Type: e.Name, Seed: Mix(seed, 900+i), Count: len(c16witness), N: nu, Sub: -1})
